@@ -155,6 +155,10 @@ static int eval_file(sexp ctx, sexp env, const char *path) {
       }
     }
     g_form++;
+    /* keep the output complete up to the last finished form even if a later one kills the process */
+    out = sexp_current_output_port(ctx);
+    if (sexp_oportp(out)) sexp_flush(ctx, out);
+    fflush(stdout);
   }
   sexp_close_port(ctx, in);
   out = sexp_current_output_port(ctx);
